@@ -183,7 +183,7 @@ pub fn hash_of<T: Serialize>(v: &T) -> u64 {
     u64::from_le_bytes(d[..8].try_into().unwrap())
 }
 
-pub trait Check: Sync {
+pub trait Check: Sync + Send {
     type Case: Debug + Clone + Serialize + DeserializeOwned;
     fn name(&self) -> &'static str;
     /// How cases are generated and which are non-trivial (goes into the evidence file).
@@ -376,8 +376,6 @@ pub fn run_check<C: Check>(c: &C, env: &RunEnv) -> SubOutcome {
                     cfg.failure_persistence = None;
                     cfg.max_shrink_iters = 20_000;
                     cfg.max_shrink_time = 0;
-                    cfg.fork = false;
-                    cfg.timeout = 0;
                     cfg.verbose = 0;
                     cfg.max_global_rejects = 1_000_000;
                     let mut runner = TestRunner::new_with_rng(cfg, rng);
@@ -518,10 +516,12 @@ pub fn replay_check<C: Check>(c: &C, env: &RunEnv, case_json: &Value) -> Result<
 }
 
 /// Object-safe wrapper so that a property can list heterogeneous checks.
-pub trait DynCheck: Sync {
+pub trait DynCheck: Sync + Send {
     fn name(&self) -> &'static str;
     fn run(&self, env: &RunEnv) -> SubOutcome;
     fn replay(&self, env: &RunEnv, case_json: &Value) -> Result<TResult, String>;
+    /// One coverage-guided execution: see [`fuzz_exec`].
+    fn fuzz(&self, env: &RunEnv, stats: &Stats, data: &[u8]) -> Option<(String, String)>;
 }
 
 impl<C: Check> DynCheck for C {
@@ -534,6 +534,77 @@ impl<C: Check> DynCheck for C {
     fn replay(&self, env: &RunEnv, case_json: &Value) -> Result<TResult, String> {
         replay_check(self, env, case_json)
     }
+    fn fuzz(&self, env: &RunEnv, stats: &Stats, data: &[u8]) -> Option<(String, String)> {
+        fuzz_exec(self, env, stats, data)
+    }
+}
+
+/// Coverage-guided driver (libFuzzer target in /verif/fuzz): the fuzzer's bytes are the random stream
+/// of the check's *own* proptest strategy (`RngAlgorithm::PassThrough`), so every generated case is
+/// one the strategy can produce and the fuzzer's mutations act on the choices the strategy makes.
+/// The oracle is the check's `test`. On a failure that is not a listed finding the case is shrunk
+/// with the strategy's own value tree, written as a replay file, and (reason, replay path) returned.
+pub fn fuzz_exec<C: Check>(c: &C, env: &RunEnv, stats: &Stats, data: &[u8]) -> Option<(String, String)> {
+    use proptest::strategy::ValueTree;
+    if data.len() < 4 {
+        return None;
+    }
+    let mut cfg = Config::default();
+    cfg.failure_persistence = None;
+    let mut runner = TestRunner::new_with_rng(cfg, TestRng::from_seed(RngAlgorithm::PassThrough, data));
+    let strat = c.strategy(env.tier);
+    let Ok(mut tree) = strat.new_tree(&mut runner) else { return None };
+    let frozen = Cell::new(false);
+    let run = |case: &C::Case, frozen: &Cell<bool>| -> Option<String> {
+        let rec = Rec { stats, frozen, strict: false, known: &env.known, local_known: Cell::new(0) };
+        let r = std::panic::catch_unwind(std::panic::AssertUnwindSafe(|| c.test(case, &rec)));
+        let r = match r {
+            Ok(r) => r,
+            Err(p) => Err(Fail::new(format!("panic in check: {}", panic_msg(&p)))),
+        };
+        match r {
+            Ok(()) => None,
+            Err(f) => {
+                if let Some(k) = is_known(env, &f) {
+                    if !frozen.get() {
+                        let mut kh = stats.known_hits.lock().unwrap();
+                        kh.entry(k.signature.clone()).or_insert((0, k.what.clone())).0 += 1;
+                    }
+                    None
+                } else {
+                    Some(f.msg)
+                }
+            }
+        }
+    };
+    stats.evaluations.fetch_add(1, Ordering::Relaxed);
+    let first = run(&tree.current(), &frozen)?;
+    // shrink with the strategy's value tree (recording frozen)
+    frozen.set(true);
+    let mut reason = first;
+    let mut best = tree.current();
+    let mut iters = 0;
+    while iters < 5_000 && tree.simplify() {
+        loop {
+            iters += 1;
+            let cand = tree.current();
+            match run(&cand, &frozen) {
+                Some(r) => {
+                    reason = r;
+                    best = cand;
+                    break;
+                }
+                None => {
+                    if iters >= 5_000 || !tree.complicate() {
+                        break;
+                    }
+                }
+            }
+        }
+    }
+    let cj = serde_json::to_value(&best).unwrap_or(Value::Null);
+    let path = write_replay(env, c.name(), &reason, &cj);
+    Some((reason, path))
 }
 
 pub struct Property {
